@@ -359,6 +359,44 @@ def oracle_c05(ctx: Ctx, pairs):
                             {"a": show(a), "b": show(b)}, expected=full, observed=got)
 
 
+def oracle_c05_specials(ctx: Ctx):
+    """the spellings of the universal and of the empty set (AnySpecifier from a complement, the unbounded RangeSpecifier from parsing
+    or from a covering union, EmptySpecifier from parsing / an empty intersection / a complement): == must hold inside each group in
+    both directions (with equal hashes), never across, and is_any() / is_empty() must agree"""
+    from dep_logic.specifiers import parse_version_specifier as parse
+    try:
+        anys = {'~parse("<empty>")': ~parse("<empty>"), 'parse("")': parse(""), '<1.0 | >=1.0': parse("<1.0") | parse(">=1.0"),
+                '~(<1 & >1)': ~(parse("<1") & parse(">1")), '<=2 | >1': parse("<=2") | parse(">1"), '~~parse("")': ~~parse("")}
+        empties = {'parse("<empty>")': parse("<empty>"), '<1 & >1': parse("<1") & parse(">1"), '~parse("")': ~parse(""),
+                   '~(<1.0 | >=1.0)': ~(parse("<1.0") | parse(">=1.0")), '>=2,<1': parse(">=2,<1")}
+    except Exception as e:  # noqa: BLE001
+        ctx.finding("specials-raise", f"building the universal / empty spellings raised {type(e).__name__}", {}, None, repr(e))
+        return
+    groups = (("universal", anys, True), ("empty", empties, False))
+    for gname, grp, is_any in groups:
+        for na, a in grp.items():
+            ctx.count("oracle-C05-specials", 1, nontrivial_key=("special", gname, type(a).__name__))
+            try:
+                if a.is_any() is not is_any or a.is_empty() is is_any:
+                    ctx.finding(f"special-flags|{gname}|{na}", "is_any() / is_empty() wrong on a spelling of the universal / empty set", {"a": na}, {"is_any": is_any}, {"is_any": a.is_any(), "is_empty": a.is_empty()})
+            except Exception as e:  # noqa: BLE001
+                ctx.finding(f"special-raise|{na}", f"is_any()/is_empty() raised {type(e).__name__}", {"a": na}, None, repr(e))
+            for nb, b in grp.items():
+                try:
+                    if (a == b) is not True or hash(a) != hash(b):
+                        ctx.finding(f"special-eq|{gname}|{type(a).__name__}|{type(b).__name__}", "two spellings of the same set do not compare equal (or hash differently)",
+                                    {"a": na, "b": nb}, expected=True, observed={"eq": a == b, "hash_equal": hash(a) == hash(b)})
+                except Exception as e:  # noqa: BLE001
+                    ctx.finding(f"special-raise|{na}|{nb}", f"== / hash raised {type(e).__name__}", {"a": na, "b": nb}, None, repr(e))
+    for na, a in anys.items():
+        for nb, b in empties.items():
+            try:
+                if (a == b) is not False or (b == a) is not False:
+                    ctx.finding(f"special-eq|cross|{type(a).__name__}|{type(b).__name__}", "the universal and the empty set compare equal", {"a": na, "b": nb}, expected=False, observed=True)
+            except Exception as e:  # noqa: BLE001
+                ctx.finding(f"special-raise|{na}|{nb}", f"== raised {type(e).__name__}", {"a": na, "b": nb}, None, repr(e))
+
+
 def oracle_c05_gaps(ctx: Ctx):
     """the public PEP 440 order is not dense: v and its immediate successor (v.post0.dev0 for a version without post/dev segment,
     v.post(N+1).dev0 after v.postN) have no version between them, so `>v` and `<succ` have no common member - read over versions,
@@ -510,6 +548,7 @@ def run_c05(ctx: Ctx):
     if not any(b["kind"] == "translation" for b in ctx.broken):
         stream_sgen(ctx, pairs, with_predicates=False)
     oracle_c05(ctx, pairs)
+    oracle_c05_specials(ctx)
     oracle_c05_gaps(ctx)
     ctx.coverage["rule"] = "as C01; every result is checked for canonical shape, == / is_empty / is_any against membership at probes realising every cut position"
     ctx.coverage["exhaustive"] = ctx.tier == "thorough"
